@@ -32,7 +32,13 @@ def handleIntr (args : List Sexp) : String :=
     match Oracles.ofSexp o, Query.ofSexp q, joinedOfSexp j, fs.mapM fileOfSexp, optNat clear, optNat stop with
     | some o, some q, some j, some fs, some clear, some stop =>
       let (ro, n) := runBatchI o q j fs clear stop
-      if ro.skipped.isSome then runOutToWire ro else runOutToWire ro ++ " jl=" ++ toString n
+      -- what the per-line hook of the loader observes: the lines LOOKED AT (one more than processed when the loop
+      -- left at a sampling point before the end of the file)
+      let len := match j with
+        | some ls => ls.length
+        | none => 0
+      let looked := if n < len then n + 1 else n
+      if ro.skipped.isSome then runOutToWire ro else runOutToWire ro ++ " jl=" ++ toString looked
     | _, _, _, _, _, _ => "bad-case"
   | _ => "bad-case"
 
